@@ -118,7 +118,7 @@ Proof.
     pose proof (add_head_spec p l (FU f, length args) false I) as Hah.
     destruct (add_head p l (FU f, length args) false) as [l1 dn].
     destruct Hah as (I1 & Hext1 & Hfrm1 & Hdefs1 & _); [intros k a E; discriminate|].
-    pose proof (app_post p l1 (NCall (FU f) args dn) I1 I (fun _ _ _ H => ltac:(discriminate H)) eq_refl) as Hap.
+    pose proof (app_post p l1 (NCall (FU f) args dn) I1 Logic.I (fun _ _ _ H => ltac:(discriminate H)) eq_refl) as Hap.
     simpl in Hap. destruct Hap as (I2 & Hext2 & Hfrm2 & Hdefs2 & Hfr2 & Hg2 & Hsz2).
     unfold app_node at 1. simpl fst in *. unfold cb_post; splits.
     + exact I2.
@@ -129,7 +129,7 @@ Proof.
     + intros [|fuel]; [reflexivity|]. simpl render. simpl snd. rewrite Hg2. reflexivity.
     + destruct (Hext1 0) as [Hs1 _]. simpl in *. lia.
   - (* builtin *)
-    pose proof (app_post p l (NBuiltin f args id) I I (fun _ _ _ H => ltac:(discriminate H)) eq_refl) as Hap.
+    pose proof (app_post p l (NBuiltin f args id) I Logic.I (fun _ _ _ H => ltac:(discriminate H)) eq_refl) as Hap.
     simpl in Hap. destruct Hap as (I2 & Hext2 & Hfrm2 & Hdefs2 & Hfr2 & Hg2 & Hsz2).
     unfold cb_post; splits; auto.
     + intros [|fuel]; [reflexivity|]. simpl render. rewrite Hg2. reflexivity.
